@@ -14,6 +14,8 @@ CHECKS = {
          "every algebraic expression up to the size bound is built through the Python overloads / functional API and compared bit-exactly (matrix, shape, admissible dtype) with the reference interpreter and differentially with the raw constructors; every incompatible ordered pair of leaves must be rejected by all six sum/product forms"),
  "C05": ("annotated operator terms (every combination of true declarations, all scalars, A^H A patterns on one object) + declaration wrapper + outputs of lanczos/arnoldi/eig/svd/matrix functions/inv/cholesky/plu for all truncations; truth test on the reference matrix",
          "every annotation reported by every enumerated operator term or routine output is tested for truth on the exact reference matrix (Hermitian / PSD / unitary / orthonormal columns); the declaration wrapper is checked to leave its argument unchanged"),
+ "C20": ("(operator of every kind and depth-1 nesting) x every index expression (int pairs, rows, 245 slices per axis, index arrays incl. unsorted/negative/repeated, list pairs); same expression on the reference matrix",
+         "every enumerated indexing expression on every enumerated operator is compared with the same expression on the exact reference matrix; sub-operators additionally through shape, dtype, to_dense, products with real and complex operands on both sides"),
 }
 PENDING = {}
 props = [json.loads(l) for l in open(os.path.join(ROOT, "properties.jsonl"))]
